@@ -2,3 +2,4 @@ pub mod crc;
 pub mod framing;
 pub mod pdu;
 pub mod server;
+pub mod client;
